@@ -988,9 +988,30 @@ class _Boom(OSError):
 def resave_cases(I, r, n, out):
     ircdb = I.ircdb
     import supybot.utils.file as ufile
+    dflt = ufile.AtomicFile.default
+    saved_cfg = (dflt.tmpDir, dflt.backupDir)
+    scratch = os.path.dirname(fresh_file(I, 'cfgprobe'))
+    bdir = os.path.join(scratch, 'backups'); tdir = os.path.join(scratch, 'tmpdir')
+    for d_ in (bdir, tdir):
+        os.makedirs(d_, exist_ok=True)
+    try:
+        _resave_cases(I, r, n, out, ufile, bdir, tdir)
+    finally:
+        dflt.tmpDir, dflt.backupDir = saved_cfg
+
+def _resave_cases(I, r, n, out, ufile, bdir, tdir):
+    ircdb = I.ircdb
     for _ in range(n):
         which = r.choice(['users', 'users', 'ignores', 'channels', 'networks'])
         fault = r.random() < 0.5
+        # the AtomicFile configurations of the bot: supybot.directories.backup unset / a directory / '/dev/null'
+        # (no backups), supybot.directories.data.tmp unset / a directory
+        backup = r.choice([None, None, bdir, '/dev/null', '/dev/null'])
+        tmpd = r.choice([None, None, tdir])
+        ufile.AtomicFile.default.backupDir = backup
+        ufile.AtomicFile.default.tmpDir = tmpd
+        cfg_tag = 'backup=%s,tmp=%s' % ('unset' if backup is None else ('devnull' if backup == '/dev/null' else 'dir'),
+                                        'unset' if tmpd is None else 'dir')
         fn = fresh_file(I, 're' + which)
         if os.path.exists(fn): os.unlink(fn)
         if which == 'users':
@@ -1014,6 +1035,8 @@ def resave_cases(I, r, n, out):
             def modify():
                 if r.random() < 0.3:
                     cd.channels.clear(); cd.flush() if False else None; return 'emptied'
+                if r.random() < 0.4 and len(cd.channels) > 1:
+                    cd.channels.pop(r.choice(list(cd.channels.keys()))); return 'shrunk'
                 c = cd.getChannel(g_chan_name(r)); c.lobotomized = True; cd.setChannel(g_chan_name(r), c); return 'modified'
         else:
             nd, _t = build_nets(I, r, False)
@@ -1022,6 +1045,8 @@ def resave_cases(I, r, n, out):
             def modify():
                 if r.random() < 0.3:
                     nd.networks.clear(); return 'emptied'
+                if r.random() < 0.4 and len(nd.networks) > 1:
+                    nd.networks.pop(r.choice(list(nd.networks.keys()))); return 'shrunk'
                 n_ = nd.getNetwork(g_word(r)); n_.addStsPolicy(g_word(r), 'duration=1,port=2'); nd.setNetwork(g_word(r), n_); return 'modified'
         obj.filename = fn
         obj.flush()
@@ -1062,8 +1087,9 @@ def resave_cases(I, r, n, out):
         else:
             ok = (C == B); want = 'the state that was flushed: %r' % (B,)
         ok = ok and I.rec.exc is None
-        tags = ('resave', which, what) + (('flush-failed',) if failed else ())
-        c = Case({'db': which, 'op': 'resave', 'saved_first': repr(A), 'then': what, 'fault_at_write': (k if fault else None)},
+        tags = ('resave', which, what, 'resave-' + cfg_tag) + (('flush-failed',) if failed else ())
+        c = Case({'db': which, 'op': 'resave', 'saved_first': repr(A), 'then': what, 'fault_at_write': (k if fault else None),
+                  'atomicfile': cfg_tag},
                  kind='resave', tags=tags, oracle_ok=ok,
                  oracle_msg='' if ok else 'after saving over an existing %s file%s the reload gives %r; expected %s'
                             % (which, ' (flush raised part-way)' if failed else '', C, want))
